@@ -117,12 +117,18 @@ var confDir string
 
 func writeConf(name, text string) string {
 	if confDir == "" {
+		// scratch data files for the loaders; tmpfs when there is one (thousands
+		// of rewrites per run), else the work directory of the run
 		d := os.Getenv("VERIF_WORK")
 		if d == "" {
 			d = os.TempDir()
 		}
-		confDir = filepath.Join(d, fmt.Sprintf("balconf-%d", os.Getpid()))
-		os.MkdirAll(confDir, 0o755)
+		if shm := filepath.Join("/dev/shm", fmt.Sprintf("verif-balconf-%d", os.Getpid())); os.MkdirAll(shm, 0o755) == nil {
+			confDir = shm
+		} else {
+			confDir = filepath.Join(d, fmt.Sprintf("balconf-%d", os.Getpid()))
+			os.MkdirAll(confDir, 0o755)
+		}
 	}
 	p := filepath.Join(confDir, name)
 	if err := os.WriteFile(p, []byte(text), 0o644); err != nil {
